@@ -27,6 +27,13 @@ var Metas = map[string]Meta{
 	"C12": {Category: "exploration", Rule: "one run = history h1 (possibly abandoned, failed, closed), Reset, history h2, compared with a fresh Writer running h2; non-trivial = h1 wrote at least one byte; distinct = distinct schedule signature"},
 	"C14": {Category: "fault_enumeration", Rule: "for each sampled workload the sink fails at call k for every k (thorough, and quick when the fault-free run makes <= 64 calls; otherwise first/last 8 and a stratified sample); one evaluation = one (workload, k) run; non-trivial = the injected fault actually fired; distinct = distinct schedule signature"},
 	"C16": {Category: "exploration", Rule: "all histories over {Write(0), Write(small), Write(70000), Flush, Close, Reset} up to length 4 (5 thorough), the constructor level table -4..11, then random histories up to length 40, each in lock-step with the stdlib Writer; non-trivial = more than one operation; distinct = distinct schedule signature"},
+	"C02": {Category: "exploration", CrossLevel: true, Rule: "one run = one stream accepted by compress/flate (stdlib or fastgo encoder history, or block synthesiser) read through a drawn source kind, delivery schedule and Read-size schedule; non-trivial = stdlib accepts and the output is non-empty; distinct = distinct schedule signature (source refill sizes/outcomes, result)"},
+	"C03": {Category: "exploration", CrossLevel: true, Rule: "one run = one malformed/truncated/random input (planted structural fault, blind mutation, truncation; every 16th run index sweeps the truncation point over every byte of a small valid stream) on a fresh or reused Reader; non-trivial = non-empty input; distinct = distinct schedule signature"},
+	"C04": {Category: "exploration", CrossLevel: true, Rule: "one run = one valid or truncated stream read all-at-once and under 8 (12 thorough) delivery/Read-size schedules, three of them aimed at a block header or block end; one evaluation = one schedule; non-trivial = non-empty input; distinct = distinct schedule signature"},
+	"C05": {Category: "exploration", CrossLevel: true, Rule: "one run = valid stream/container followed by a suffix, read to io.EOF through a source kind and constructor; non-trivial = non-empty suffix; distinct = distinct schedule signature"},
+	"C13": {Category: "exploration", CrossLevel: true, Rule: "one run = 1..3 earlier streams (read partially, to EOF or into an error), Reset, next input (valid, back-references before its start, malformed), compared with a fresh Reader; non-trivial = at least one earlier stream; distinct = distinct schedule signature"},
+	"C15": {Category: "fault_enumeration", CrossLevel: true, Rule: "for each sampled valid stream/container the source fails after k bytes for every k in 0..len (thorough, and quick when len <= 512; otherwise first/last 8 and a stratified sample), error alone or with the last bytes; one evaluation = one (stream, k) run; non-trivial = the injected error was actually returned by the source; distinct = distinct schedule signature"},
+	"C18": {Category: "exploration", CrossLevel: true, Rule: "one run = one level-independent input (valid, truncated or malformed; flate/gzip/zlib) read with the same source/Read schedule in worker processes forced to each runnable level; the parent compares (output bytes, error kind) across levels; non-trivial = input longer than the assembly loop's 24-byte slop; distinct = distinct schedule signature"},
 	"C19": {Category: "exploration", Rule: "one run = one Writer history with data built around the window edge; non-trivial = the output contains matches and the input is longer than the window; distinct = distinct schedule signature"},
 }
 
